@@ -74,6 +74,16 @@ Theorem C18_upsert_needs_pk_check :
   exists pk all m u t t' b a, at_upsert pk all false m u [] t = Ok t' b a /\ map fst b <> [] /\ a = [].
 Proof. exact at_upsert_needs_pk_check. Qed.
 
+(* a table without an AUTO_INCREMENT column: every listed key value, 0 included, names its row *)
+Theorem C18_exact_insert_plain_key : forall trk krs t r0,
+  at_insert_plain trk krs (Some (map fst krs)) t = r0 ->
+  r0 = Err EDupKey
+  \/ exists t', r0 = Ok t' [] (img_of trk t' (map fst krs))
+       /\ map fst (img_of trk t' (map fst krs)) = map fst krs
+       /\ (forall k r, In (k, r) krs -> lookup k t = None /\ lookup k t' = Some r)
+       /\ (forall k, ~ In k (map fst krs) -> lookup k t' = lookup k t).
+Proof. exact at_insert_plain_exact. Qed.
+
 (* a mix of explicit and generated key values in one statement is refused rather than recorded wrongly *)
 Theorem C18_insert_mixed_refused : forall ks last_id nrows,
   all_explicit ks = false -> all_generated ks = false -> recover (Some ks) last_id nrows = None.
